@@ -123,6 +123,7 @@ func GenC07(seed, index uint64) *Workload {
 	w := &Workload{Prop: "C07", Seed: seed, Index: index}
 	ntasks := 2 + r.Intn(3)
 	ndocs := 1 + r.Intn(3)
+	bigRun := false
 	poison := pick(r, []int{0, 0, 3, 10})
 	spare := pick(r, []int{0, 30, 60})
 	for i := 0; i < ndocs; i++ {
@@ -136,16 +137,19 @@ func GenC07(seed, index uint64) *Workload {
 	}
 	if r.P(1, 60) {
 		// big data: shared big documents, expressions over their long arrays
-		w.Docs = []string{GenBigDoc(r.Fork(7), "T0"), GenBigDoc(r.Fork(8), "T1")}
+		// (one of them with a wrong-typed element near the end of its long arrays)
+		w.Docs = []string{GenBigDoc(r.Fork(7), "T0!"), GenBigDoc(r.Fork(8), "T1")}
 		ndocs = 2
 		w.Exprs = nil
 		nexpr = 1 + r.Intn(3)
+		fam := pick(r, BigFamilies)
 		for i := 0; i < nexpr; i++ {
-			w.Exprs = append(w.Exprs, specOf(GenBigExpr(r.Fork(300+uint64(i)))))
+			w.Exprs = append(w.Exprs, specOf(GenBigExprFamily(r.Fork(300+uint64(i)), fam)))
 		}
-		ntasks = 2 + r.Intn(2)
+		ntasks = 2 + r.Intn(3)
+		bigRun = true
 	}
-	deep := r.P(1, 60)
+	deep := !bigRun && r.P(1, 60)
 	if deep {
 		// several clients parse deeply nested texts at the same time
 		w.Exprs = nil
@@ -189,6 +193,9 @@ func GenC07(seed, index uint64) *Workload {
 		nops := 1 + r.Intn(4)
 		if storm {
 			nops = 3 + r.Intn(5)
+		}
+		if bigRun {
+			nops = 2 + r.Intn(3)
 		}
 		var ops []Op
 		for k := 0; k < nops; k++ {
@@ -235,12 +242,13 @@ func GenC06(seed, index uint64, maxOps int) *Workload {
 		w.Exprs = append(w.Exprs, specOf(GenExpr(r.Fork(100+uint64(i)), bias)))
 	}
 	if r.P(1, 150) {
-		w.Docs = []string{GenBigDoc(r.Fork(7), "H0"), GenBigDoc(r.Fork(8), "H1")}
+		w.Docs = []string{GenBigDoc(r.Fork(7), "H0!"), GenBigDoc(r.Fork(8), "H1")}
 		ndocs = 2
 		w.Exprs = nil
 		nexpr = 1 + r.Intn(3)
+		fam := pick(r, BigFamilies)
 		for i := 0; i < nexpr; i++ {
-			w.Exprs = append(w.Exprs, specOf(GenBigExpr(r.Fork(300+uint64(i)))))
+			w.Exprs = append(w.Exprs, specOf(GenBigExprFamily(r.Fork(300+uint64(i)), fam)))
 		}
 	}
 	nexpr = addTextVariants(r, w, nexpr)
